@@ -114,6 +114,9 @@ func (w *world) pool(g *group, seed int64) []pitem {
 	}
 	// points of the curve found from a random abscissa (outside the prime subgroup on curves with cofactor)
 	for i := 0; i < 2; i++ {
+		if g.prime && !allCurveInSubgroup {
+			break // the type only holds points of the prime-order subgroup (ed25519/prime, curve25519/prime)
+		}
 		if rp, ok := randomCurvePoint(c, r); ok {
 			add(rp, allCurveInSubgroup, "random curve point")
 			if !allCurveInSubgroup {
